@@ -4,10 +4,12 @@
    prioritized_try; clean write failure, node already had CIDRs, node vanished: update_cidrs_allocation,
    all by [release_in] on the blocks just reserved); and releasing a node's CIDRs removes exactly
    the blocks they overlap in every entry the node is associated with.
+   The base case of the global statement is proved: right after construction every block in use is justified by a
+   service range or a listed node (Just_proofs.v).
    Not proved (monitored on the implementation's traces at every idle point by the check): the
    global statement over all histories -- it needs the world-level justification invariant;
    recorded residues K-D21, K-TOMB. *)
-From NIPAM Require Import Sys Alloc_proofs Inv_proofs Pool_proofs Geom_proofs.
+From NIPAM Require Import Sys Alloc_proofs Inv_proofs Pool_proofs Geom_proofs Just_proofs.
 Open Scope N_scope.
 
 Theorem C04_partial_reserve_then_release_restores :
@@ -35,3 +37,14 @@ Theorem C04_partial_failed_attempt_keeps_invariant :
   MapInv m -> Forall wf_cidr cs -> update_cidrs_allocation canp apisame m name cs p reread outs = (m', r, fx) -> MapInv m'.
 Proof. exact update_cidrs_allocation_inv. Qed.
 Print Assumptions C04_partial_failed_attempt_keeps_invariant.
+
+(* the base case of the global invariant: a new incarnation withholds nothing that a service range or a listed node does
+   not justify *)
+Theorem C04_partial_after_construction_everything_in_use_is_justified :
+  forall po lab ccs outs s1 s2 nodes m fx pan,
+  Forall good_obj ccs -> Forall wf_node nodes ->
+  (forall s, s1 = Some s -> wf_cidr s) -> (forall s, s2 = Some s -> wf_cidr s) ->
+  construct po lab ccs outs s1 s2 nodes = (m, fx, pan) ->
+  forall e, In e (all_entries m) -> forall f pl, pool_of e f = Some pl -> forall b, In b (used pl) -> justified s1 s2 nodes b.
+Proof. exact construct_resurrects_nothing. Qed.
+Print Assumptions C04_partial_after_construction_everything_in_use_is_justified.
